@@ -171,7 +171,12 @@ def run_scenario(sc: dict[str, Any]) -> dict[str, Any]:
         except Stall:
             stall = True
         events = convert(sim.recorder.events, sc)
-        return {'id': sc['id'], 'conf': conf_of(sc), 'events': events, 'stall': stall, 'scenario': sc}
+        steps = []
+        if not stall and ops:       # the watchers of the handled kind (the ones a pause closes) as step traces of Streaming.tla
+            from vf import streaming
+            steps = streaming.segments(sim.recorder.events, streaming.conf_from_settings(next(iter(ops.values())).settings), sc['id'],
+                                       plurals={PLURAL}, pausable={PLURAL})
+        return {'id': sc['id'], 'conf': conf_of(sc), 'events': events, 'stall': stall, 'scenario': sc, 'steps': steps}
     finally:
         kpeering.random = saved_random
         sim.close()
